@@ -28,6 +28,13 @@ CHECKS = {
         "trusted: raw DuckDB for state set-up and observation; reference evaluator mc/ref/sql3vl.py (selftested); not demanded: TRUNCATE status row, rowcount of DDL",
         "explicit-state model checking (depth-bounded BFS with state dedupe) against a 3-valued-logic reference model",
     ),
+    "C03": (
+        "E1-bfs",
+        "model_checking",
+        "depth-bounded explicit-state BFS over histories of DDL/USE/DML/queries at three qualification levels on two connections of one instance, deduplicated on the model state (catalog with row tags + both session contexts); after every transition the reported context (conn.database/schema, CURRENT_DATABASE/SCHEMA) and the raw DuckDB catalog are compared with a dict-based reference model",
+        "trusted: raw DuckDB catalog as ground truth; not demanded: which schema is current after USE DATABASE, error codes other than 90105/90106",
+        "explicit-state model checking (depth-bounded BFS, real implementation as transition function) against a catalog+context reference model",
+    ),
 }
 
 NOT_BUILT = "check not built yet in this round (planned per DESIGN.md §3); no claim is made"
